@@ -16,7 +16,7 @@ RULE = (
     "backup state S_b with DISJOINT node ids so that a merge is visible). Then enumerated exhaustively per file: "
     "main in {missing, every truncation length 0..len-1, zero-filled to the same length} x backup in {absent, "
     "intact, truncated at 0 / 1 / len/2 / len-1, zero-filled}, the file being named absolutely, by bare name, as ./name or below a "
-    "sub-directory of the working directory (rotating). Oracle: start_persistence() (and "
+    "sub-directory of the working directory (rotating), a third of the loads with the library's logging switched to DEBUG and a formatting handler. Oracle: start_persistence() (and "
     "safe_load_sensors()) return without raising; the loaded projection is S_b if the backup is intact, else "
     "empty - never a mixture; a following save + fresh load works. Controls: intact main => S_main. "
     "Non-trivial = truncation strictly inside the file, or zero-fill, with a backup present; distinct by "
